@@ -103,7 +103,7 @@ PROPS = {
         trusted=["hmac/sha2 crates; DefaultHasher as an arbitrary function"],
     ),
     "C06": dict(
-        suites=[("cache", 4000, 500000)],
+        suites=[("cache", 4000, 500000), ("route", 600, 20000)],
         extracted=["dns.cacheKeyFromQuery"],
         rule="histories of 2..15 ops over store(key, reply with TTLs 0..2^32-1 spread over the three sections, also empty replies) x "
              "lookup(key or near-miss key differing in case / type / DO / CD) x expire x clock advance (around 1 s, the smallest "
